@@ -1,6 +1,7 @@
 import CogentModel.Proofs.DataStoreSim
 import CogentModel.Proofs.DataStoreSqlSim
 import CogentModel.Model.DataStoreSqlite
+import CogentModel.Gen.C13Names
 /-! # C13 — data stores hold exactly what was written, record by record
 
 Model: `Model/DataStore.lean` (DataStoreDirectory over an abstract file system, string handling
@@ -632,5 +633,109 @@ example : SimS (id : Nat → Nat) (DataStoreSqlite.run id (Sql.create .a) [.writ
       (specRun .sqlite [] (Dict.empty .a) [.write idA (1 : Nat), .writeNc idBA 2]) ∧
     safeS (specRun .sqlite [] (Dict.empty .a) [.write idA (1 : Nat), .writeNc idBA 2]) (.write idBA (7 : Nat)) = true :=
   ⟨run_simS _ _ _ (simS_create .a) (by decide), by decide⟩
+
+
+/-! ## The naming layer, TRANSLATED from the current source
+
+`Gen/C13Names.lean` is regenerated on every run by `translator/c13_names2lean.py` from `app/data_store.py`
+(`_special_suffixes`, `DataStoreDirectory.__contains__`, `_write`, `drop_not_completed`, `md5`, the glob patterns of
+`completed` / `not_completed`, `DataStoreABC._check_writable`).  The theorems below prove every generated definition equal
+to the hand model used by the refinement theorems, for ALL arguments; the event lists tie the ORDER of the effect
+statements (writability check, 'already stored' early return, writes; unlink record / unlink md5 / cache removal). -/
+section Translated
+open CogentModel
+
+theorem gen_special_eq (item : Str) : Gen.C13Names.special item = special item := by
+  simp [Gen.C13Names.special, reSearchDotAltEnd, Alt.endsMatch, special, sLog, sJson]
+
+theorem gen_contains_item_eq (sfx item : Str) : Gen.C13Names.contains_item sfx item = containsItem sfx item := by
+  simp only [Gen.C13Names.contains_item, containsItem, gen_special_eq]
+  cases special item <;> cases isInfix sfx item <;> simp
+
+theorem gen_check_writable_eq (ro ap m : Bool) : Gen.C13Names.check_writable_rejects ro ap m = (ro || (m && ap)) := rfl
+
+theorem gen_skip_guard_eq (sfx subdir suffix : Str) : Gen.C13Names.skip_guard sfx subdir suffix = (suffix != sLog) := rfl
+
+theorem gen_resolve_eq (sfx suffix uid : Str) : Gen.C13Names.resolve sfx suffix uid = resolve sfx suffix uid := by
+  simp only [Gen.C13Names.resolve, resolve, gen_contains_item_eq]
+  by_cases h : (getFormatSuffixes uid).1 = some suffix
+  · simp [h, sTxt]
+    cases (getFormatSuffixes uid).2 <;> simp
+  · simp [h, sTxt]
+    cases (getFormatSuffixes (pathStem uid ++ '.' :: suffix)).2 <;> simp
+
+theorem gen_drop_key_eq (sfx uid : Str) : Gen.C13Names.drop_key sfx uid = dropKey sfx uid := by
+  simp only [Gen.C13Names.drop_key, dropKey]
+  have h : (['.'] ++ sfx : Str) = '.' :: sfx := rfl
+  rw [h]
+  generalize replaceAll uid ('.' :: sfx) [] = u
+  cases u <;> simp [sJson]
+
+theorem gen_drop_loop_eq (key m : Str) :
+    Gen.C13Names.drop_skip key m = (!key.isEmpty && !dropMatch key (pathName m)) ∧
+    Gen.C13Names.drop_file m = pathName m ∧
+    Gen.C13Names.drop_md5 m = dropMd5 (pathName m) := by
+  simp [Gen.C13Names.drop_skip, Gen.C13Names.drop_file, Gen.C13Names.drop_md5, dropMatch, dropMd5, sTxt, bne]
+
+theorem gen_md5_lookup_eq (sfx uid : Str) : Gen.C13Names.md5_lookup sfx uid = md5Lookup sfx (pathName uid) := by
+  simp [Gen.C13Names.md5_lookup, md5Lookup, sJson, sTxt]
+
+theorem gen_glob_eq (sfx : Str) :
+    Gen.C13Names.glob_completed sfx = '*' :: '.' :: sfx ∧ Gen.C13Names.glob_not_completed = '*' :: '.' :: sJson := by
+  simp [Gen.C13Names.glob_completed, Gen.C13Names.glob_not_completed, sJson]
+
+theorem gen_event_order :
+    Gen.C13Names.write_events.take 3 = ["check_writable", "skip_if_member", "write_record_logbranch"] ∧
+    (Gen.C13Names.write_events.drop 3 = ["write_md5", "write_record", "return"] ∨
+     Gen.C13Names.write_events.drop 3 = ["write_record", "write_md5", "return"]) ∧
+    Gen.C13Names.drop_events = ["raise_if_readonly", "loop_over_snapshot", "continue_if_other", "unlink_record", "unlink_md5",
+      "cache_remove", "rmdir_if_all", "cache_reset_if_all"] := by
+  decide
+
+example : Gen.C13Names.resolve ['f','a','.','g','z'] ['f','a','.','g','z'] ['a'] =
+    ⟨['a','.','f','a','.','g','z'], ['a','.','f','a','.','g','z'], ['a','.','f','a','.','g','z'], ['a','.','t','x','t']⟩ := by decide
+example : Gen.C13Names.resolve fasta sJson ['a','.','t','x','t'] =
+    ⟨['a','.','t','x','t','.','f','a','s','t','a'], ['a','.','j','s','o','n'], ['a','.','j','s','o','n'], ['a','.','t','x','t']⟩ := by decide
+example : Gen.C13Names.drop_key fasta aFasta = ['a','.','j','s','o','n'] ∧
+    Gen.C13Names.drop_skip ['a','.','j','s','o','n'] (ncPrefix ++ ['b','a','.','j','s','o','n']) = true ∧
+    Gen.C13Names.drop_md5 (ncPrefix ++ ['b','a','.','j','s','o','n']) = ['b','a','.','t','x','t'] := by decide
+example : Gen.C13Names.md5_lookup ['f','a','.','g','z'] ['a','.','f','a','.','g','z'] = ['a','.','t','x','t'] ∧
+    Gen.C13Names.md5_lookup ['f','a','.','g','z'] ['a','.','f','a','_','g','z'] = ['a','.','t','x','t'] ∧
+    Gen.C13Names.md5_lookup fasta (ncPrefix ++ ['a','.','j','s','o','n']) = ['a','.','t','x','t'] := by decide
+
+/-! ### md5 side files for every store suffix (two-part suffixes such as `fa.gz` included) -/
+
+theorem sfxReMatch_self (sfx : Str) : sfxReMatch sfx sfx = true := by
+  induction sfx with
+  | nil => rfl
+  | cons c cs ih => by_cases hd : c = '.' <;> simp [sfxReMatch, hd, ih]
+
+theorem endsWithSfxRe_canonical (sfx stem : Str) : endsWithSfxRe (stem ++ '.' :: sfx) sfx = true := by
+  have hl : (stem ++ '.' :: sfx).length - (sfx.length + 1) = stem.length := by simp
+  simp only [endsWithSfxRe, hl, List.drop_left']
+  simp [sfxReMatch_self sfx]
+
+/-- `md5()` finds the side file of the canonical member name for EVERY store suffix (two-part ones included) -/
+theorem md5Lookup_canonical (sfx stem : Str) :
+    md5Lookup sfx (stem ++ '.' :: sfx) = stem ++ '.' :: sTxt := by
+  have hl : (stem ++ '.' :: sfx).length - (sfx.length + 1) = stem.length := by simp
+  simp [md5Lookup, reSubDotAltEnd, List.find?, Alt.endsMatch, endsWithSfxRe_canonical sfx stem, Alt.len]
+
+theorem md5Lookup_json (sfx stem : Str) (h : endsWithSfxRe (stem ++ '.' :: sJson) sfx = false) :
+    md5Lookup sfx (stem ++ '.' :: sJson) = stem ++ '.' :: sTxt := by
+  have hl : (stem ++ '.' :: sJson).length - (sJson.length + 1) = stem.length := by simp
+  have he : endsWith (stem ++ '.' :: sJson) ('.' :: sJson) = true := by simp [endsWith]
+  simp [md5Lookup, reSubDotAltEnd, List.find?, Alt.endsMatch, h, he, Alt.len]
+
+example : md5Lookup ['f','a','.','g','z'] (['b','a'] ++ '.' :: ['f','a','.','g','z']) = ['b','a','.','t','x','t'] :=
+  md5Lookup_canonical _ _
+
+/-- the refinement theorem is not vacuous for a store that keeps its records compressed (suffix `fa.gz`): in append mode
+    with re-opens -/
+example : hyg ['f','a','.','g','z'] [['a'], ['b','a'], ['x','1']] = true ∧
+    safeHist ['f','a','.','g','z'] [['a'], ['b','a'], ['x','1']] (Dict.empty .a)
+      [.writeNc ['b','a'] (1 : Nat), .write ['a'] 2, .reopen .w, .write ['b','a'] 3, .writeNc ['x','1'] 4,
+       .drop ['x','1'], .reopen .r, .observe] = true := by decide
+end Translated
 
 end CogentModel.C13
